@@ -14,6 +14,7 @@ import (
 	"github.com/ajitpratap0/GoSQLX/pkg/sql/ast"
 	"github.com/ajitpratap0/GoSQLX/pkg/sql/security"
 	"github.com/ajitpratap0/GoSQLX/pkg/sql/tokenizer"
+	"github.com/ajitpratap0/GoSQLX/pkg/transform"
 	"pgregory.net/rapid"
 	"verif/gen/sqlgen"
 	"verif/internal/astdump"
@@ -35,6 +36,7 @@ func pin() func() {
 type CleanCase struct {
 	Type  string `json:"type"`
 	Field string `json:"field"` // "*" = every field filled
+	Len   int    `json:"len,omitempty"` // elements per slice (default 1)
 }
 
 func findPool(name string) *registry.Pool {
@@ -52,6 +54,8 @@ func oracleClean(c CleanCase) error {
 		return nil
 	}
 	defer pin()()
+	reflectx.SliceLen = c.Len
+	defer func() { reflectx.SliceLen = 1 }()
 	obj := p.New()
 	v := reflect.ValueOf(obj).Elem()
 	if c.Field == "*" {
@@ -103,7 +107,7 @@ func TestPoolClean(t *testing.T) {
 	if hx.Shard() != 0 {
 		t.Skip("enumeration runs on shard 0 only")
 	}
-	hx.Rule("pool_clean", "every pooled type with a Put accessor (registry generated from pkg/sql/ast/pool.go) x every exported field: a value with exactly that field (and once with every field) filled with arbitrary non-zero content is released through its public path; the released object and the object the next Get returns (goroutine pinned, same object) must dump equal to a freshly constructed one; exhaustive over (type, field)")
+	hx.Rule("pool_clean", "every pooled type with a Put accessor (registry generated from pkg/sql/ast/pool.go) x every exported field x slice lengths {1, 40, 300}: a value with exactly that field (and once with every field) filled with arbitrary non-zero content is released through its public path; the released object and the object the next Get returns (goroutine pinned, same object) must dump equal to a freshly constructed one; exhaustive over (type, field)")
 	n := 0
 	for _, p := range registry.Pools {
 		ty := reflect.TypeOf(p.New()).Elem()
@@ -114,14 +118,21 @@ func TestPoolClean(t *testing.T) {
 			}
 		}
 		for _, f := range fields {
-			c := CleanCase{Type: p.Type, Field: f}
-			if !hx.Allowed("c09.clean."+p.Type) || !hx.Allowed("c09.clean."+p.Type+"."+f) {
-				continue
+			for _, ln := range []int{1, 40, 300} {
+				if ln > 1 && f != "*" {
+					if sf, ok := ty.FieldByName(f); !ok || sf.Type.Kind() != reflect.Slice {
+						continue // longer slices only matter for slice fields (and for "every field")
+					}
+				}
+				c := CleanCase{Type: p.Type, Field: f, Len: ln}
+				if !hx.Allowed("c09.clean."+p.Type) || !hx.Allowed("c09.clean."+p.Type+"."+f) {
+					continue
+				}
+				n++
+				hx.Case("pool_clean", true, fmt.Sprint(p.Type, ".", f, "/", ln))
+				hx.Sample("pool_clean", c)
+				cleanCheck.One(t, c)
 			}
-			n++
-			hx.Case("pool_clean", true, p.Type+"."+f)
-			hx.Sample("pool_clean", c)
-			cleanCheck.One(t, c)
 		}
 	}
 	hx.Exhaustive("pool_clean", true)
@@ -212,7 +223,32 @@ type held struct {
 	tree *ast.AST
 }
 
+// transformRules builds one set of transform rules per history; each Rule value is then applied
+// to any number of held trees (a rule must not make two trees share nodes).
+func transformRules() []transform.Rule {
+	return []transform.Rule{
+		transform.AddWhereFromSQL("paid = false AND qty > 3"),
+		transform.AddWhereFromSQL("lower ( name ) LIKE 'a%'"),
+		transform.AddJoinFromSQL("LEFT JOIN audit_log al ON al . id = t1 . id AND al . kind = 'x'"),
+		transform.AddJoinFromSQL("JOIN extra e ON e . k = 1"),
+		transform.SetLimit(7),
+		transform.SetOffset(3),
+		transform.AddOrderBy("created_at", true),
+		transform.ReplaceTable("t1", "t1_archive"),
+		transform.AddTableAlias("t2", "tt"),
+		transform.QualifyColumns("t1"),
+		transform.RemoveColumn("b"),
+		transform.ReplaceColumn("a", "a_new"),
+		transform.AddSelectStar(),
+		transform.RemoveWhere(),
+		transform.RemoveLimit(),
+		transform.RemoveOrderBy(),
+		transform.RemoveJoin("t2"),
+	}
+}
+
 func runHold(h HoldHistory) error {
+	rules := transformRules()
 	var H []*held
 	hold := func(what string, v interface{}, tree *ast.AST) {
 		H = append(H, &held{what: what, val: v, snap: astdump.Dump(v), tree: tree})
@@ -328,6 +364,18 @@ func runHold(h HoldHistory) error {
 		case "recovery_hold":
 			stmts, _ := gosqlx.ParseWithRecovery(op.SQL)
 			hold("recovery statement list", stmts, nil)
+		case "transform":
+			// the caller rewrites ONE of its trees in place with a rule it also uses on others:
+			// only that tree may change
+			if len(H) == 0 {
+				continue
+			}
+			x := H[op.Idx%len(H)]
+			if x == nil || x.tree == nil || len(x.tree.Statements) == 0 {
+				continue
+			}
+			_ = transform.Apply(x.tree.Statements[0], rules[op.N%len(rules)])
+			x.snap = astdump.Dump(x.val)
 		}
 		if err := check(i, op); err != nil {
 			return err
@@ -401,20 +449,42 @@ func genHoldSQL(rt *rapid.T) string {
 }
 
 func TestHeldValuesStable(t *testing.T) {
-	hx.Rule("held_values_stable", "histories of parse-and-hold, tokenize-and-hold (tokens and comments; tokenizer kept or returned to the pool), reuse of the pooled tokenizer, derive-and-hold (extracted lists, scan result, formatted text), release of one held tree, churn of parse+release on this and on four other goroutines, recovery-parse-and-hold; after every step every value still held must dump equal to its snapshot; non-trivial = a release or >= 10 churn parses between a hold and a later check; distinct = op kinds")
+	hx.Rule("held_values_stable", "histories of parse-and-hold, tokenize-and-hold (tokens and comments; tokenizer kept or returned to the pool), reuse of the pooled tokenizer, derive-and-hold (extracted lists, scan result, formatted text), release of one held tree, in-place rewriting of one held tree with a pkg/transform rule that is shared by the whole history (17 rules), churn of parse+release on this and on four other goroutines, recovery-parse-and-hold; after every step every value still held must dump equal to its snapshot; non-trivial = a release or >= 10 churn parses between a hold and a later check; distinct = op kinds")
 	holdCheck.Rapid(t, hx.N(10000, 80000), func(rt *rapid.T) HoldHistory {
+		if rapid.IntRange(0, 3).Draw(rt, "transform_focus") == 0 {
+			// several trees rewritten with the SAME rule values, then one of them released or
+			// rewritten again while the others are still held
+			var h HoldHistory
+			nTrees := rapid.IntRange(2, 4).Draw(rt, "trees")
+			for i := 0; i < nTrees; i++ {
+				sql := rapid.SampledFrom([]string{"SELECT a , b FROM t1 WHERE c = 1", "SELECT a FROM t1 JOIN t2 ON t1 . a = t2 . a", "SELECT * FROM t1", "UPDATE t1 SET a = 1 WHERE b = 2", "DELETE FROM t1 WHERE a = 1",
+					"SELECT a , b FROM t1 WHERE c > 0 ORDER BY a LIMIT 3"}).Draw(rt, "tsql")
+				h.Ops = append(h.Ops, HoldOp{Kind: "parse_hold", SQL: sql})
+			}
+			rule := rapid.IntRange(0, 3).Draw(rt, "shared_rule") // the four rules built from SQL text
+			for i := 0; i < nTrees; i++ {
+				h.Ops = append(h.Ops, HoldOp{Kind: "transform", Idx: i, N: rule})
+			}
+			for i, n := 0, rapid.IntRange(1, 5).Draw(rt, "tail"); i < n; i++ {
+				k := rapid.SampledFrom([]string{"release", "transform", "pool_gets", "churn", "derive_hold"}).Draw(rt, "tailkind")
+				h.Ops = append(h.Ops, HoldOp{Kind: k, SQL: "SELECT x FROM y WHERE z = 1 AND w = 2", N: rapid.IntRange(0, 16).Draw(rt, "n"), Idx: rapid.IntRange(0, nTrees-1).Draw(rt, "idx")})
+			}
+			hx.Case("held_values_stable", true, fmt.Sprint(h.Ops), "transform_focused")
+			hx.Sample("held_values_stable", []string{"transform_focused"})
+			return h
+		}
 		n := rapid.IntRange(2, 14).Draw(rt, "nops")
 		var h HoldHistory
 		var kinds []string
 		nt := false
 		holds := 0
 		for i := 0; i < n; i++ {
-			k := rapid.SampledFrom([]string{"parse_hold", "parse_hold", "tokenize_hold_put", "tokenize_hold_keep", "reuse_tokenizer", "derive_hold", "release", "release", "pool_gets", "churn", "churn_goroutines", "recovery_hold"}).Draw(rt, "kind")
+			k := rapid.SampledFrom([]string{"parse_hold", "parse_hold", "tokenize_hold_put", "tokenize_hold_keep", "reuse_tokenizer", "derive_hold", "release", "release", "pool_gets", "churn", "churn_goroutines", "recovery_hold", "transform", "transform", "transform"}).Draw(rt, "kind")
 			op := HoldOp{Kind: k, SQL: genHoldSQL(rt), N: rapid.IntRange(1, 20).Draw(rt, "n"), Idx: rapid.IntRange(0, 20).Draw(rt, "idx")}
 			if strings.Contains(k, "hold") {
 				holds++
 			}
-			if holds > 0 && (k == "release" || ((k == "churn" || k == "churn_goroutines") && op.N >= 10) || k == "reuse_tokenizer") {
+			if holds > 0 && (k == "release" || k == "transform" || ((k == "churn" || k == "churn_goroutines") && op.N >= 10) || k == "reuse_tokenizer") {
 				nt = true
 			}
 			h.Ops = append(h.Ops, op)
